@@ -15,5 +15,5 @@ func NewDialog(callID string, localTag string, remoteTag string) *Dialog {
 }
 
 func (d *Dialog) String() string {
-	return fmt.Sprintf("%s-%s-%s", d.callID, d.localTag, d.remoteTag)
+	return fmt.Sprintf("%q-%s-%s", d.callID, d.localTag, d.remoteTag)
 }
